@@ -2,6 +2,7 @@
 package cert
 
 import (
+	"cmp"
 	"container/list"
 	"fmt"
 	"slices"
@@ -197,8 +198,10 @@ func (c *Authority) VerifyAggregateQC(aggQC hotstuff.AggregateQC) (highQC hotstu
 // findHighestValidQC returns the highest-view valid QC from a list of QCs.
 func (c *Authority) findHighestValidQC(qcs []hotstuff.QuorumCert) (highQC hotstuff.QuorumCert, err error) {
 	// Sort QCs by view in descending order to check the highest view first.
+	// (compare, do not subtract: the views are unsigned 64-bit numbers claimed by the signers, and a difference
+	// that overflows makes the order inconsistent, so that a lower valid QC can end up before a higher one)
 	slices.SortFunc(qcs, func(a, b hotstuff.QuorumCert) int {
-		return int(b.View()) - int(a.View())
+		return cmp.Compare(b.View(), a.View())
 	})
 	for _, qc := range qcs {
 		if err := c.VerifyQuorumCert(qc); err == nil {
